@@ -37,6 +37,7 @@ import (
 type bsReq struct {
 	w, g int
 	at   int64
+	cx   *int64 // the client goes away: the request's context is cancelled cx ns after the group started
 	hdr  []string
 	brLayer
 }
@@ -73,7 +74,11 @@ func (c *bsCase) reqOp(r *bsReq) string {
 	if r.hdr != nil {
 		h = brXL(r.hdr)
 	}
-	return fmt.Sprintf("sreq w=%d g=%d at=%d h=%s %s", r.w, r.g, r.at, h, l.opToks(""))
+	cx := "-"
+	if r.cx != nil {
+		cx = strconv.FormatInt(*r.cx, 10)
+	}
+	return fmt.Sprintf("sreq w=%d g=%d at=%d cx=%s h=%s %s", r.w, r.g, r.at, cx, h, l.opToks(""))
 }
 
 func bsKV(ln string) map[string]string {
@@ -124,6 +129,9 @@ func bsParse(lines []string) (*bsCase, bool) {
 			r.w, _ = strconv.Atoi(kv["w"])
 			r.g, _ = strconv.Atoi(kv["g"])
 			r.at, _ = strconv.ParseInt(kv["at"], 10, 64)
+			if n, err := strconv.ParseInt(kv["cx"], 10, 64); err == nil {
+				r.cx = &n
+			}
 			c.evs = append(c.evs, bsEv{r: r})
 		default:
 			return nil, false
@@ -173,8 +181,15 @@ func bsRun(c *bsCase, emit func(op, obs string, tags ...string)) {
 		rt.calls++
 		rt.tok = token
 		mu.Unlock()
+		// the verifier works until `now` (virtual) and honours its context meanwhile
 		if d := time.Until(rt.t0.Add(time.Duration(rt.r.now))); d > 0 {
-			time.Sleep(d) // virtual
+			tm := time.NewTimer(d)
+			select {
+			case <-tm.C:
+			case <-ctx.Done():
+				tm.Stop()
+				return nil, ctx.Err()
+			}
 		}
 		return rt.info, rt.verr
 	}
@@ -227,10 +242,16 @@ func bsRun(c *bsCase, emit func(op, obs string, tags ...string)) {
 			rt.obs = "bad-op"
 			return
 		}
+		ctx, cancel := context.WithCancel(context.Background())
+		defer cancel()
+		if r.cx != nil {
+			tm := time.AfterFunc(time.Until(rt.t0.Add(time.Duration(*r.cx))), cancel)
+			defer tm.Stop()
+		}
 		if d := time.Duration(r.at); d > 0 {
 			time.Sleep(d)
 		}
-		req := httptest.NewRequest("GET", "http://rs.example/mcp", nil)
+		req := httptest.NewRequest("GET", "http://rs.example/mcp", nil).WithContext(ctx)
 		if r.hdr != nil {
 			req.Header["Authorization"] = r.hdr
 		}
@@ -326,6 +347,9 @@ func bsTags(c *bsCase, i, j, k int, rt *bsRT) []string {
 	tags := []string{"sess"}
 	if f := strings.Fields(rt.obs); len(f) > 1 {
 		tags = append(tags, f[0])
+	}
+	if rt.r.cx != nil {
+		tags = append(tags, "sess:client-gone")
 	}
 	if j-i > 1 {
 		tags = append(tags, "sess:concurrent")
@@ -438,6 +462,27 @@ func bsEnumerate(emit func(*bsCase)) {
 			rq(c, 0, 0, 0, hGood, l)
 		}
 		emit(c)
+		// (5) a client goes away while its request is inside the verifier (which honours its context): that request is
+		// answered for the verifier's error; the others in flight with the same Authorization value are not concerned
+		{
+			s := int64(time.Second)
+			for w2 := 0; w2 < 2; w2++ {
+				for _, gone := range []int64{2 * s, s / 2, 0} {
+					c := mk("client-gone", 2)
+					wr(c, 0)
+					wr(c, 1)
+					a, b, d, e := bsGood(full), bsGood(full), bsGood(full), bsGood(full)
+					a.now, b.now, d.now, e.now = 5*s, 6*s, 3*s, 4*s
+					c.evs = append(c.evs, bsEv{r: &bsReq{w: 0, g: 1, at: 0, cx: &gone, hdr: hGood, brLayer: a}})
+					rq(c, w2, 1, s, hGood, b)
+					rq(c, 1-w2, 1, s, hGood, d)
+					early := s
+					c.evs = append(c.evs, bsEv{r: &bsReq{w: w2, g: 1, at: 3 * s, cx: &early, hdr: hGood, brLayer: e}})
+					rq(c, 0, 0, 0, hGood, bsGood(full))
+					emit(c)
+				}
+			}
+		}
 		// (4) concurrent requests through the one value: the same Authorization value, verdicts and infos of their
 		// own, every overlap order (second enters while the first is inside the verifier and leaves before / after
 		// it; both enter at the same instant), through the same wrapper and through two wrappers
@@ -552,6 +597,11 @@ func bsRandom(rng *rand.Rand) *bsCase {
 				l.exp = eff + int64(time.Hour)
 			default:
 				l.exp = eff + brMag(rng)
+			}
+			if gid > 0 && rng.Intn(6) == 0 {
+				if cx := times[rng.Intn(len(times))] + int64(rng.Intn(3)) - 1; cx != l.now {
+					r.cx = &cx
+				}
 			}
 			r.brLayer = l
 			c.evs = append(c.evs, bsEv{r: r})
